@@ -519,6 +519,7 @@ def leaf_tree(tree):
 
 
 def moved(old, new):
+    """entries with the same id whose own name or parent changed"""
     out = []
     for o in old:
         e = find_entry(new, o[0])
@@ -527,53 +528,67 @@ def moved(old, new):
     return out
 
 
+def path_moved(old, new):
+    """(old entry, new entry) of the files and symlinks of `old` whose PATH changed (own rename, or a
+    directory above them was renamed: a plain stream renames them one by one)"""
+    out = []
+    for o in old:
+        e = find_entry(new, o[0])
+        if e is not None and o[3] != "d" and id2path(old, o[0]) != id2path(new, e[0]):
+            out.append((o, e))
+    return out
+
+
 def tree_guard_reason(old, new):
     """None, or why the plain-mode file commands of (old -> new) are NOT expected to reproduce `new`
     (up to empty directories) on a basis that shows old's tree.  Executable guard of the tree-level
-    round trip (validated against the mirror on 57 000 random pairs and against the real code on every run):
-      dirmove       a directory is renamed or moved (plain streams carry no directory renames; the
-                    children stay where they were)
-      vacated       an added or moved entry lands on, or below, a path that `old` occupies with an entry
-                    that is still versioned elsewhere in `new` (swap, chain, add at a vacated path)
+    round trip (validated against the mirror on random pairs and against the real code on every run);
+    state after the repair round (directory renames and file->directory changes work now):
+      vacated       an added or moved entry lands on, or below, a path that `old` occupies with a file or
+                    symlink that is still versioned elsewhere in `new` (swap, chain, add at a vacated path)
       late-delete   a moved entry lands below a path whose old occupant is removed (removals are emitted
                     after the renames)
       below-file    a moved entry lands below a path that is a file or symlink in `old`
-      file-to-emptydir   a file/symlink becomes (same id) a directory with no file below it: nothing is
-                    emitted and the old file stays
       dir-to-file   a file/symlink appears where `old` has a directory while something that was below that
                     directory survives: the importer deletes every basis child of the directory
-      file-to-dir2  a file/symlink path of `old` is a directory with two or more files below it in `new`:
-                    the second M re-creates the directory with a fresh id (InconsistentDelta)"""
-    mv = moved(old, new)
-    for o in old:
-        e = find_entry(new, o[0])
-        if e is not None and o[3] != "d" and e[3] == "d":
-            p = id2path(new, e[0])
-            if not any(x[3] != "d" and id2path(new, x[0]).startswith(p + b"/") for x in new):
-                return "file-to-emptydir"
+      dir-kind      a directory that is renamed or moved changes its kind in the same commit
+      dir-swallows-delete  a directory is renamed onto the path of a removed file or symlink
+      kind-to-dir-moved    a file/symlink becomes a directory below a directory that is renamed"""
     for e in new:
         if e[3] != "d":
             i = path2id(old, id2path(new, e[0]))
             if i is not None and i != 0 and is_dir(old, i):
                 if any(find_entry(new, x[0]) is not None for _, x in descendants(old, i)):
                     return "dir-to-file"
-    for x in old:
-        if x[3] != "d":
-            p = id2path(old, x[0])
-            if len([y for y in new if y[3] != "d" and id2path(new, y[0]).startswith(p + b"/")]) >= 2:
-                return "file-to-dir2"
-    if any(o[3] == "d" or e[3] == "d" for o, e in mv):
-        return "dirmove"
-    vacated = [id2path(old, o[0]) for o, _ in mv]
+    for o, e in moved(old, new):
+        if (o[3] == "d") != (e[3] == "d"):
+            return "dir-kind"
+        if e[3] == "d":
+            # plain: the directory's own rename is not emitted, and neither is the D of a removed file or
+            # symlink at its new path (it is taken off deleted_paths all the same): the old file stays
+            i = path2id(old, id2path(new, e[0]))
+            if i is not None and i != 0 and not is_dir(old, i) and find_entry(new, i) is None:
+                return "dir-swallows-delete"
+    for o in old:
+        e = find_entry(new, o[0])
+        if e is not None and o[3] != "d" and e[3] == "d" and id2path(old, o[0]) != id2path(new, e[0]):
+            # deleted first (kind change to directory) and then renamed with the children of the renamed
+            # directory above it: the importer resurrects it at the new path
+            return "kind-to-dir-moved"
+    pm = path_moved(old, new)
+    vacated = [id2path(old, o[0]) for o, _ in pm]
     removed = [id2path(old, o[0]) for o in old if find_entry(new, o[0]) is None]
     for e in new:
+        if e[3] == "d":
+            continue
         o = find_entry(old, e[0])
-        if o is None or (o[1] != e[1] or o[2] != e[2]):
-            p = id2path(new, e[0])
+        p = id2path(new, e[0])
+        was = None if o is None else id2path(old, o[0])
+        if o is None or was != p or o[3] == "d":
             for v in vacated:
-                if p == v or p.startswith(v + b"/"):
+                if v != was and (p == v or p.startswith(v + b"/")):
                     return "vacated"
-            if o is not None:
+            if o is not None and o[3] != "d":
                 for r in removed:
                     if p.startswith(r + b"/"):
                         return "late-delete"
@@ -588,22 +603,70 @@ def tree_guard(old, new):
 
 
 def tree_guard_rich_reason(old, new):
-    """Rich streams (directory commands): the plain guard without `dirmove` (cases with moved directories
-    are not generated for rich streams), and: no entry changes between directory and file/symlink, no
-    directory appears at a path that `old` occupies with a file or symlink, no removed directory has a
-    surviving descendant (`D dir` deletes every basis child, also those renamed out before)."""
-    r = tree_guard_reason(old, new)
-    if r is not None:
-        return r
+    """The same for rich streams (directories are renamed, deleted and created by their own commands):
+      dir-to-file   a file/symlink appears where `old` has a directory, or a directory is removed, while
+                    something that was below it survives (`D dir` / the kind change deletes every basis child,
+                    also those renamed out before)
+      rich-dir-rename-modified-child   a directory is renamed or moved and a file/symlink that stays below it
+                    is modified, chmod-ed or changes kind in the same commit: `M new/path` is looked up in
+                    the basis inventory by its NEW path, gets a fresh file id and collides (InconsistentDelta)
+      into-moved-dir   an entry is renamed to below the new path of a directory that is renamed in the same
+                    commit (the renames are emitted in old-path order)
+      vacated / late-delete / below-file   as in plain streams, for entries whose own name or parent changed
+      dir-kind      a renamed or moved entry changes between directory and file/symlink"""
+    for e in new:
+        if e[3] != "d":
+            i = path2id(old, id2path(new, e[0]))
+            if i is not None and i != 0 and is_dir(old, i):
+                if any(find_entry(new, x[0]) is not None for _, x in descendants(old, i)):
+                    return "dir-to-file"
     for o in old:
-        e = find_entry(new, o[0])
-        if e is not None and (o[3] == "d") != (e[3] == "d"):
-            return "kind-dir"
-        if o[3] != "d":
-            i = path2id(new, id2path(old, o[0]))
-            if i is not None and i != 0 and is_dir(new, i):
-                return "kind-dir"
-        if e is None and o[3] == "d":
+        if o[3] == "d" and find_entry(new, o[0]) is None:
             if any(find_entry(new, x[0]) is not None for _, x in descendants(old, o[0])):
                 return "dir-to-file"
+    mv = moved(old, new)
+    for o, e in mv:
+        if (o[3] == "d") != (e[3] == "d"):
+            return "dir-kind"
+    def carried(x):
+        """an entry of `new` that only follows a renamed directory above it (own name and parent unchanged)"""
+        o = find_entry(old, x[0])
+        return o is not None and o[1] == x[1] and o[2] == x[2] and id2path(old, o[0]) != id2path(new, x[0])
+    for e in new:
+        o = find_entry(old, e[0])
+        changed = o is None or o[1] != e[1] or o[2] != e[2] or o[3] != e[3] or \
+            (e[3] != "d" and (o[4] != e[4] or o[5] != e[5]))
+        if not changed:
+            continue
+        # the command for e names its NEW path; every carried entry on that path (e itself when it is modified
+        # in place, or a directory above it) is unknown to the basis inventory under that path
+        x = e
+        first = True
+        while x is not None:
+            if carried(x) and not (first and o is not None and (o[1] != e[1] or o[2] != e[2])):
+                return "rich-dir-rename-modified-child"
+            first = False
+            x = find_entry(new, x[1]) if x[1] != 0 else None
+    newdirs = [id2path(new, e[0]) for o, e in mv if e[3] == "d"]
+    for o, e in mv:
+        p = id2path(new, e[0])
+        if any(p.startswith(d + b"/") for d in newdirs):
+            return "into-moved-dir"
+    vacated = [id2path(old, o[0]) for o, _ in mv]
+    removed = [id2path(old, o[0]) for o in old if find_entry(new, o[0]) is None]
+    for e in new:
+        o = find_entry(old, e[0])
+        p = id2path(new, e[0])
+        was = None if o is None else id2path(old, o[0])
+        if o is None or (o[1] != e[1] or o[2] != e[2]):
+            for v in vacated:
+                if v != was and (p == v or p.startswith(v + b"/")):
+                    return "vacated"
+            if o is not None:
+                for r in removed:
+                    if p.startswith(r + b"/"):
+                        return "late-delete"
+                for x in old:
+                    if x[3] != "d" and p.startswith(id2path(old, x[0]) + b"/"):
+                        return "below-file"
     return None
